@@ -87,6 +87,32 @@ def gen_drops(rng):
             ops.append(f"ack {cur} {k} all")
     return with_stats(ops, rng)
 
+def gen_refused(rng):
+    """the auth plugin refuses some CONNECTs: their packets (and what is sent on them afterwards) are booked under client id """""
+    ops = ["new mode=onlyonce auth=plain", "api acct set u pw"]
+    n, pid = 0, 0
+    good = []
+    for _ in range(rng.randint(4, 12)):
+        r = rng.random()
+        if r < 0.35:
+            n += 1
+            ops.append(f"conn g{n} cg{n} v={rng.choice([4, 5])} cs=1 user=u pass=pw"); good.append(f"g{n}")
+        elif r < 0.7:
+            n += 1
+            v = rng.choice([3, 4, 5])
+            ops.append(f"conn b{n} cb{n} v={v} cs=1 user=u pass={rng.choice(['PW', 'p', 'pwx', '~'])}")
+            for _ in range(rng.randint(0, 3)):
+                pid += 1
+                ops.append(rng.choice([f"ping b{n}", f"sub b{n} {pid} t/#|1", f"pub b{n} t/a q=0 pid=0 tag=x{pid}"]))
+        elif good:
+            c = rng.choice(good)
+            pid += 1
+            ops.append(rng.choice([f"ping {c}", f"sub {c} {pid} t/#|1", f"pub {c} t/a q=1 pid={pid} tag=y{pid}"]))
+            if ops[-1].startswith("pub"):
+                for g in good:
+                    ops.append(f"ack {g} puback all")
+    return with_stats(ops, rng)
+
 # ---------------------------------------------------------------- parsing the `stats` line
 
 def parse_kv(s):
@@ -127,10 +153,10 @@ class Snap:
             return
         for ent in mr.group(1).split(";"):
             if ent:
-                head, tx, rx, mtx, mrx = ent.split("|")
+                head, acc, tx, rx, mtx, mrx = ent.split("|")
                 conn, cid = head.split("=", 1)
-                if cid.startswith("?"):
-                    cid = "~"       # never sent a CONNECT that registered: the broker books its packets under client id ""
+                if cid.startswith("?") or acc != "acc:1":
+                    cid = "~"       # no CONNECT was accepted on it (yet): the broker books its packets under client id ""
                 self.t[conn] = dict(cid=cid, tx=parse_pairs(tx[3:]), rx=parse_pairs(rx[3:]), mtx=parse_kv(mtx[4:]), mrx=parse_kv(mrx[4:]))
         for ent in mr.group(2).split(";"):
             if ent:
@@ -183,6 +209,8 @@ def derive_events(truth, prev, snap):
         if ev[0] == "created":
             created_at.setdefault(ev[1], []).append(op)
     for conn, t in snap.t.items():
+        if conn in truth.conn_epoch and truth.conn_epoch[conn][0] == "~" and t["cid"] != "~":
+            del truth.conn_epoch[conn]       # accepted only now: from here on its packets are the client's
         if conn not in truth.conn_epoch:
             cid = t["cid"]
             if cid == "~":
@@ -329,10 +357,32 @@ def diff_counters(got, exp, skip=("subs.",)):
             out.append(f"{k}: broker {got.get(k, 0)}, actual {exp.get(k, 0)}")
     return out
 
+def classify(scope, d):
+    """defect class of one counter difference"""
+    k = d.split(":")[0]
+    if k.startswith(("mr.q", "ms.q")):
+        return "per-client QoS 1/2 messages counted under QoS 0" if scope != "global" else "global message counters"
+    if k == "infl":
+        return "global in-flight gauge" if scope == "global" else "client in-flight gauge"
+    if k == "queued":
+        return "global queued gauge" if scope == "global" else "client queued gauge"
+    if k in ("active", "inactive"):
+        return "session gauges"
+    if k.startswith(("pr.auth", "br.auth", "ps.auth", "bs.auth")):
+        return "AUTH packets invisible"
+    if k.startswith(("pr.", "br.", "ps.", "bs.")):
+        return "packet / byte counters"
+    if k.startswith("md."):
+        return "dropped-message counters"
+    return "connection / session counters"
+
 def predicate(ops, out):
     if len(out) != len(ops) or (out and out[0].startswith("CRASH")):
         return "implementation crashed or hung: " + (out[0] if out else "")
     truth, prev = Truth(), None
+    found = {}          # defect class -> first evidence
+    def note(cls, msg):
+        found.setdefault(cls, msg)
     for i, (op, line) in enumerate(zip(ops, out)):
         if "HANG" in line:
             return f"broker did not become quiescent after `{op}`"
@@ -348,33 +398,31 @@ def predicate(ops, out):
         for scope, d in [("global", snap.g)] + [("client " + c, v) for c, v in snap.c.items()]:
             for k, v in d.items():
                 if v >= 2 ** 63:
-                    return f"{where}: {scope} counter {k} = {v} has wrapped below zero"
+                    note("gauge wrapped below zero", f"{where}: {scope} counter {k} = {v}")
         # per client
         for cid in sorted(set(snap.c) | {c for c, alive in truth.live.items() if alive}):
-            if cid == "~" and cid not in truth.live:
-                continue
             if not truth.live.get(cid, False):
                 if cid in snap.c:
-                    return f"{where}: statistics entry for {cid}, which has no session"
+                    note("statistics entry without session", f"{where}: entry for {cid}")
                 continue
             got = snap.c.get(cid, {})
             exp = expect_client(truth, snap, cid, truth.epoch[cid])
-            d = diff_counters(got, exp)
-            if d:
-                return f"{where}: client {cid}: " + "; ".join(d[:6])
-            if got.get("subs.cur", 0) != snap.s.get(cid, 0):
-                return f"{where}: client {cid}: subs.cur: broker {got.get('subs.cur', 0)}, actual {snap.s.get(cid, 0)}"
-        d = diff_counters(snap.g, expect_global(truth, snap))
-        if d:
-            return f"{where}: global: " + "; ".join(d[:6])
+            for d in diff_counters(got, exp):
+                note(classify("client", d), f"{where}: client {cid}: {d}")
+            if cid != "~" and got.get("subs.cur", 0) != snap.s.get(cid, 0):
+                note("subscription counters", f"{where}: client {cid}: subs.cur: broker {got.get('subs.cur', 0)}, actual {snap.s.get(cid, 0)}")
+        for d in diff_counters(snap.g, expect_global(truth, snap)):
+            note(classify("global", d), f"{where}: global: {d}")
         if snap.g.get("subs.cur", 0) != sum(snap.s.values()):
-            return f"{where}: global: subs.cur: broker {snap.g.get('subs.cur', 0)}, actual {sum(snap.s.values())}"
-    return None
+            note("subscription counters", f"{where}: global: subs.cur: broker {snap.g.get('subs.cur', 0)}, actual {sum(snap.s.values())}")
+    if not found:
+        return None
+    return "[" + " | ".join(sorted(found)) + "] " + "; ".join(found[k] for k in sorted(found))[:1500]
 
 def nontrivial(ops, out):
-    """some statistics snapshot shows a drop, a non-empty queue, or a terminated session"""
+    """some statistics snapshot shows a drop, a non-empty queue, a terminated session, or packets booked under client id """""
     for op, line in zip(ops, out):
-        if op == "stats" and ("md.q" in line or "queued=" in line or "se.term" in line):
+        if op == "stats" and ("md.q" in line or "queued=" in line or "se.term" in line or "C:~{" in line):
             return True
     return False
 
@@ -382,7 +430,7 @@ def canon(ops, out):
     res = []
     for op, line in zip(ops, out):
         if op.split()[0] != "stats":
-            res.append(line if line.startswith(("CRASH", "panic", "no-broker", "invalid-config", "ok")) else "-")
+            res.append(line if (line.startswith(("CRASH", "panic")) or line in ("no-broker", "invalid-config", "ok")) else "-")
             continue
         left = line.partition(" ## ")[0]
         left = re.sub(r",?subs\.(cur|total)=\d+", "", left)
@@ -393,19 +441,24 @@ def canon(ops, out):
 ORACLE_ARGS = ["asis"] if os.environ.get("VERIF_C20_ASIS") else []
 
 def streams(tier):
-    n = 1 if tier == "quick" else 25
+    n = 1 if tier == "quick" else 12
     mk = lambda name, gen, k: (core.Stream(name, "stats", gen, predicate, nontrivial, canon=canon, keep_prefix=1, hint=hint,
                                            oracle_args=ORACLE_ARGS), k)
-    return [mk("stats-session", gen_session, 120 * n), mk("stats-deliver", gen_deliver, 80 * n), mk("stats-drops", gen_drops, 100 * n)]
+    return [mk("stats-session", gen_session, 120 * n), mk("stats-deliver", gen_deliver, 80 * n), mk("stats-drops", gen_drops, 100 * n),
+            mk("stats-refused", gen_refused, 40 * n)]
 
 def _why(info):
     return info.get("why") or ""
 
-RECOGNISERS = {
-    "c20_f34_qos": lambda info: bool(re.search(r"client \S+: m[rs]\.q", _why(info))),
-    "c20_f34_inflight": lambda info: bool(re.search(r"global: infl|counter infl = \d+ has wrapped", _why(info))),
-    "c20_f34_release": lambda info: bool(re.search(r"global: (queued|infl)", _why(info))),
-}
+F34_CLASSES = {"per-client QoS 1/2 messages counted under QoS 0", "global in-flight gauge", "global queued gauge",
+               "gauge wrapped below zero", "AUTH packets invisible"}
+
+def rec_f34(info):
+    """every defect class named in the reason is one of the F34 facets"""
+    m = re.match(r"\[(.*?)\] ", _why(info))
+    return bool(m) and set(m.group(1).split(" | ")) <= F34_CLASSES
+
+RECOGNISERS = {"c20_f34_stats": rec_f34}
 
 def run(r):
     return core.standard_run(r, __import__(__name__, fromlist=["x"]))
@@ -415,7 +468,7 @@ RULE = ("wire workloads (session lifecycles with take-over / expiry / terminatio
         "packets they decoded, hook calls (session created/resumed/terminated, connected, closed, dropped) and the real queue contents; "
         "the Python predicate recomputes every counter per client session and globally; the Lean model of statsManager folds the "
         "events derived from the same ground truth and must print the same dump. non-trivial = a snapshot shows a drop, a non-empty "
-        "queue or a terminated session")
+        "queue, a terminated session, or packets of never-accepted connections (client id \"\")")
 ASSUME = ["ground truth for drops and session events comes from the broker's own hooks (OnMsgDropped etc.), which fire next to the "
           "statsManager calls; whether a drop was right is C10's matter",
           "cumulative counters stay below 2^64; gauges are integers modulo 2^64",
